@@ -289,7 +289,8 @@ pub fn gen_c10(out: &mut impl Write, seed: u64, thorough: bool) {
     let forms = all_forms();
     let lens = |f: &Form, r: &mut Rng| -> Vec<usize> {
         match f.form {
-            "id" => vec![33],
+            // 33 is the only id length; the others are the lengths of keys (a key body under an id header must not pass)
+            "id" => vec![33, 32, 64, 0, 34],
             "tok" => vec![r.range(64, 200), 0],
             _ => vec![32, 64, r.range(0, 200)],
         }
